@@ -2281,6 +2281,10 @@ func judgeLines(gs []genRes, stream []byte) (string, int) {
 			if len(rest) == 0 {
 				return what + " has no line: the output ends after " + strconv.Itoa(i) + " lines", i
 			}
+			if len(rest) > len(enc) && bytes.Equal(rest[:len(enc)], enc) {
+				return fmt.Sprintf("%s is not on a line of its own: no newline follows it, the next result continues the same line (...%s|%s...), which is not one JSON object (json.Valid = %v); the output has %d lines for %d results",
+					what, tailOf(enc, 24), headOf(rest[len(enc):], 40), json.Valid(rest), bytes.Count(stream, []byte{'\n'}), len(gs)), i
+			}
 			return fmt.Sprintf("%s: its line is not terminated by a newline (output ends ...%s)", what, tailOf(rest, 40)), i
 		}
 		line := rest[:nl]
